@@ -21,9 +21,13 @@ structure Cfg where
   simBoundInclusive : Bool
   plotBoundInclusive : Bool
   stepClockNormalised : Bool
+  /-- `begin_session` stores the EFFECTIVE start `max(argument, scenario start)` as the origin of the grid on which
+  `run_step` snaps the clock (wave 3; the defective variant stores the `starttime` argument, default 0.0). -/
+  sessionOriginEffective : Bool
 deriving DecidableEq, Repr
 
-def Cfg.good (c : Cfg) : Bool := c.simBoundInclusive && c.plotBoundInclusive && c.stepClockNormalised
+def Cfg.good (c : Cfg) : Bool :=
+  c.simBoundInclusive && c.plotBoundInclusive && c.stepClockNormalised && c.sessionOriginEffective
 
 /-! ### `round` -/
 
@@ -173,6 +177,17 @@ def sessionClocksC (c : Cfg) (fl : Rat → Rat) (start stop dt : Rat) (calls : N
 precision from the clock value itself. -/
 def sessionStepKeysC (c : Cfg) (fl : Rat → Rat) (fuel : Nat) (dt clock : Rat) : Option (List Rat) :=
   sessionStepKeys c fl fuel dt (precOf clock dt) clock
+
+/-- `begin_session(starttime=arg)` on a scenario starting at `start`: the first clock value. -/
+def effStart (arg start : Rat) : Rat := if arg ≤ start then start else arg
+
+/-- the origin `run_step` normalises the clock against (`session_state["starttime"]`). -/
+def sessionOrigin (c : Cfg) (arg start : Rat) : Rat := if c.sessionOriginEffective then effStart arg start else arg
+
+/-- the clock values of a session begun with the `starttime` argument `arg` (default `0.0`): the clock starts at the
+effective start; origin and precision of the normalisation come from the stored origin. -/
+def sessionClocksA (c : Cfg) (fl : Rat → Rat) (arg start stop dt : Rat) (calls : Nat) : List Rat :=
+  sessionClocks c fl (sessionOrigin c arg start) stop dt (precOf (sessionOrigin c arg start) dt) calls (effStart arg start)
 
 def memoKeyC (fl : Rat → Rat) (start dt x : Rat) : Rat := memoKey fl start dt (precOf start dt) x
 
